@@ -65,6 +65,14 @@ pub struct CellT {
     /// raw index, mapped monotonically onto the style list
     pub style: u16,
     pub value: bool,
+    /// re-styling: the target first carries this other style (raw index) ...
+    #[serde(default)]
+    pub prior: Option<u16>,
+    /// ... and gets its own style by 0 = `set_style` (replace), 1 = editing the live style in
+    /// place (`get_style_mut()` + gen::style::apply_in_place).  In two-phase mode the prior is
+    /// applied before the first save and the edit happens on the reloaded workbook.
+    #[serde(default)]
+    pub how: u8,
 }
 
 #[derive(Debug, Clone, Serialize, Deserialize)]
@@ -74,6 +82,14 @@ pub struct RowT {
     pub style: Option<u16>,
     pub height: Option<Num>,
     pub hidden: Option<bool>,
+    /// re-styling: the target first carries this other style (raw index) ...
+    #[serde(default)]
+    pub prior: Option<u16>,
+    /// ... and gets its own style by 0 = `set_style` (replace), 1 = editing the live style in
+    /// place (`get_style_mut()` + gen::style::apply_in_place).  In two-phase mode the prior is
+    /// applied before the first save and the edit happens on the reloaded workbook.
+    #[serde(default)]
+    pub how: u8,
 }
 
 #[derive(Debug, Clone, Serialize, Deserialize)]
@@ -90,6 +106,14 @@ pub struct ColT {
     /// 1 width, 2 hidden, 3 bestFit, 4 style
     pub neighbour: u8,
     pub neighbour_style: u16,
+    /// re-styling: the target first carries this other style (raw index) ...
+    #[serde(default)]
+    pub prior: Option<u16>,
+    /// ... and gets its own style by 0 = `set_style` (replace), 1 = editing the live style in
+    /// place (`get_style_mut()` + gen::style::apply_in_place).  In two-phase mode the prior is
+    /// applied before the first save and the edit happens on the reloaded workbook.
+    #[serde(default)]
+    pub how: u8,
 }
 
 #[derive(Debug, Clone, Serialize, Deserialize)]
@@ -104,11 +128,16 @@ pub struct Case {
     /// first save+reload, i.e. they are interned against a stylesheet that came from a file
     #[serde(default)]
     pub two_phase: bool,
+    /// how the `Style` value of styles[i] is reached (missing entries = Hist::Plain)
+    #[serde(default)]
+    pub hists: Vec<Hist>,
 }
 
 #[derive(Debug, Clone, Default, PartialEq)]
 struct ColSet {
     style: Option<usize>,
+    prior: Option<usize>,
+    how: u8,
     width: Option<f64>,
     hidden: Option<bool>,
     best_fit: Option<bool>,
@@ -117,8 +146,18 @@ struct ColSet {
 #[derive(Debug, Clone, Default, PartialEq)]
 struct RowSet {
     style: Option<usize>,
+    prior: Option<usize>,
+    how: u8,
     height: Option<f64>,
     hidden: Option<bool>,
+}
+
+#[derive(Debug, Clone, Default, PartialEq)]
+struct CellSet {
+    style: usize,
+    value: bool,
+    prior: Option<usize>,
+    how: u8,
 }
 
 static HEIGHTS: [f64; 10] = [15.0, 0.0, 0.75, 12.75, 15.75, 409.5, 13.2, 0.3333333333333333, 20.25, 100.0];
@@ -141,13 +180,33 @@ impl Case {
             _ => 1,
         }
     }
+    /// the style a target carries first when it is re-styled: another style than its own and,
+    /// in two-phase mode, one of the styles of phase 1 (even index)
+    fn prior_idx(&self, raw: Option<u16>, target: usize) -> Option<usize> {
+        let mut j = self.sidx(raw?);
+        if self.two_phase {
+            j &= !1usize;
+        }
+        if j == target {
+            None
+        } else {
+            Some(j)
+        }
+    }
+    fn hist(&self, i: usize) -> &Hist {
+        static PLAIN: Hist = Hist::Plain;
+        self.hists.get(i).unwrap_or(&PLAIN)
+    }
     /// resolved column settings (later entries override earlier ones per attribute)
     fn col_model(&self) -> BTreeMap<(usize, u32), ColSet> {
         let mut m: BTreeMap<(usize, u32), ColSet> = BTreeMap::new();
-        fn put(m: &mut BTreeMap<(usize, u32), ColSet>, sheet: usize, col: u32, style: Option<usize>, width: Option<f64>, hidden: Option<bool>, best_fit: Option<bool>) {
+        #[allow(clippy::too_many_arguments)]
+        fn put(m: &mut BTreeMap<(usize, u32), ColSet>, sheet: usize, col: u32, style: Option<usize>, prior: Option<usize>, how: u8, width: Option<f64>, hidden: Option<bool>, best_fit: Option<bool>) {
             let e = m.entry((sheet, col)).or_default();
             if style.is_some() {
                 e.style = style;
+                e.prior = prior;
+                e.how = how;
             }
             if width.is_some() {
                 e.width = width;
@@ -165,9 +224,10 @@ impl Case {
             let start = c.col.clamp(1, 16384);
             let run = (c.run.clamp(1, 8) as u32).min(16384 - start + 1);
             let style = c.style.map(|r| self.sidx(r));
+            let prior = style.and_then(|i| self.prior_idx(c.prior, i));
             let width = c.width.map(|w| w.0);
             for k in 0..run {
-                put(&mut m, sheet, start + k, style, width, c.hidden, c.best_fit);
+                put(&mut m, sheet, start + k, style, prior, c.how % 2, width, c.hidden, c.best_fit);
             }
             if c.neighbour != 0 && start + run <= 16384 {
                 let (mut s2, mut w2, mut h2, mut b2) = (style, width, c.hidden, c.best_fit);
@@ -182,7 +242,7 @@ impl Case {
                 }
                 // the neighbour must carry all four attributes of its own (no inheritance from
                 // an earlier entry at that position), so that it really differs in one thing
-                let e = ColSet { style: s2, width: w2, hidden: h2, best_fit: b2 };
+                let e = ColSet { style: s2, prior: None, how: 0, width: w2, hidden: h2, best_fit: b2 };
                 m.insert((sheet, start + run), e);
             }
         }
@@ -193,7 +253,10 @@ impl Case {
         for r in &self.rows {
             let e = m.entry((self.sheet_of(r.sheet), r.row.clamp(1, 1048576))).or_default();
             if let Some(s) = r.style {
-                e.style = Some(self.sidx(s));
+                let i = self.sidx(s);
+                e.style = Some(i);
+                e.prior = self.prior_idx(r.prior, i);
+                e.how = r.how % 2;
             }
             if let Some(h) = &r.height {
                 e.height = Some(h.0);
@@ -206,13 +269,17 @@ impl Case {
     }
     /// (sheet,row,col) -> (style index, has value); every style also sits on one cell of
     /// its own on sheet 0 (rows 40.., columns 2..17), applied last
-    fn cell_model(&self) -> BTreeMap<(usize, u32, u32), (usize, bool)> {
+    fn cell_model(&self) -> BTreeMap<(usize, u32, u32), CellSet> {
         let mut m = BTreeMap::new();
         for c in &self.cells {
-            m.insert((self.sheet_of(c.sheet), c.row.clamp(1, 1048576), c.col.clamp(1, 16384)), (self.sidx(c.style), c.value));
+            let i = self.sidx(c.style);
+            m.insert(
+                (self.sheet_of(c.sheet), c.row.clamp(1, 1048576), c.col.clamp(1, 16384)),
+                CellSet { style: i, value: c.value, prior: self.prior_idx(c.prior, i), how: c.how % 2 },
+            );
         }
         for i in 0..self.styles.len() {
-            m.insert((0usize, 40 + (i / 16) as u32, 2 + (i % 16) as u32), (i, i % 3 == 0));
+            m.insert((0usize, 40 + (i / 16) as u32, 2 + (i % 16) as u32), CellSet { style: i, value: i % 3 == 0, prior: None, how: 0 });
         }
         m
     }
@@ -226,16 +293,50 @@ fn new_book(case: &Case) -> Spreadsheet {
     book
 }
 
+/// Give a live style slot its target style: `how` 0 replaces the value, 1 edits it in place.
+fn restyle(slot: &mut Style, case: &Case, styles: &[Style], i: usize, how: u8) {
+    if how == 1 {
+        apply_in_place(slot, &case.styles[i]);
+    } else {
+        *slot = styles[i].clone();
+    }
+}
+
+/// What has to happen to one target in `phase`: (stand-in or prior style to set first, then
+/// the target's own style and attributes?)
+fn plan(case: &Case, style: Option<usize>, prior: Option<usize>, phase: u8) -> (Option<usize>, bool) {
+    let tphase = case.phase(style);
+    if tphase == phase {
+        // the prior goes first in the same phase unless it was already put there in phase 1
+        (if phase == 1 { prior } else { None }, true)
+    } else if phase == 1 && tphase == 2 {
+        (prior, false)
+    } else {
+        (None, false)
+    }
+}
+
 /// apply the targets of one phase through the public API
 fn build(book: &mut Spreadsheet, case: &Case, styles: &[Style], phase: u8) {
     for ((sheet, col), cs) in case.col_model() {
-        if case.phase(cs.style) != phase {
+        let (first, own) = plan(case, cs.style, cs.prior, phase);
+        if first.is_none() && !own {
             continue;
         }
         let ws = book.get_sheet_mut(&sheet).unwrap();
         let c = ws.get_column_dimension_by_number_mut(&col);
+        if let Some(j) = first {
+            c.set_style(styles[j].clone());
+        }
+        if !own {
+            continue;
+        }
         if let Some(i) = cs.style {
-            c.set_style(styles[i].clone());
+            if cs.how == 1 {
+                restyle(c.get_style_mut(), case, styles, i, 1);
+            } else {
+                c.set_style(styles[i].clone());
+            }
         }
         if let Some(w) = cs.width {
             c.set_width(w);
@@ -248,13 +349,24 @@ fn build(book: &mut Spreadsheet, case: &Case, styles: &[Style], phase: u8) {
         }
     }
     for ((sheet, row), rs) in case.row_model() {
-        if case.phase(rs.style) != phase {
+        let (first, own) = plan(case, rs.style, rs.prior, phase);
+        if first.is_none() && !own {
             continue;
         }
         let ws = book.get_sheet_mut(&sheet).unwrap();
         let r = ws.get_row_dimension_mut(&row);
+        if let Some(j) = first {
+            r.set_style(styles[j].clone());
+        }
+        if !own {
+            continue;
+        }
         if let Some(i) = rs.style {
-            r.set_style(styles[i].clone());
+            if rs.how == 1 {
+                restyle(r.get_style_mut(), case, styles, i, 1);
+            } else {
+                r.set_style(styles[i].clone());
+            }
         }
         if let Some(h) = rs.height {
             r.set_height(h);
@@ -263,19 +375,59 @@ fn build(book: &mut Spreadsheet, case: &Case, styles: &[Style], phase: u8) {
             r.set_hidden(h);
         }
     }
-    for ((sheet, row, col), (i, value)) in case.cell_model() {
-        if case.phase(Some(i)) != phase {
+    for ((sheet, row, col), cs) in case.cell_model() {
+        let (first, own) = plan(case, Some(cs.style), cs.prior, phase);
+        if first.is_none() && !own {
             continue;
         }
         let ws = book.get_sheet_mut(&sheet).unwrap();
-        let c = ws.get_cell_mut((col, row));
-        if value {
-            c.set_value_number(1.5);
+        if let Some(j) = first {
+            ws.get_cell_mut((col, row)).set_style(styles[j].clone());
         }
-        // always explicit: a cell created in a styled row/column inherits that style, which
-        // is API behaviour outside this property
-        c.set_style(styles[i].clone());
+        if !own {
+            continue;
+        }
+        if cs.value {
+            ws.get_cell_mut((col, row)).set_value_number(1.5);
+        }
+        // always explicit: a cell created in a styled row/column inherits that style (API
+        // behaviour outside this property); both ways of styling overwrite all of it
+        if cs.how == 1 {
+            restyle(ws.get_style_mut((col, row)), case, styles, cs.style, 1);
+        } else {
+            ws.get_cell_mut((col, row)).set_style(styles[cs.style].clone());
+        }
     }
+}
+
+/// Debug text of the `Style` values that sit on the targets touched in `phase` (for the
+/// cellXfs bound: `Style` has no Hash; the derived Debug text is equal exactly when the values
+/// are equal, there are no NaNs here)
+fn target_style_values(book: &Spreadsheet, case: &Case, phase: u8) -> std::collections::HashSet<String> {
+    let mut set = std::collections::HashSet::new();
+    for ((sheet, col), cs) in case.col_model() {
+        let (first, own) = plan(case, cs.style, cs.prior, phase);
+        if first.is_some() || own {
+            if let Some(c) = book.get_sheet(&sheet).unwrap().get_column_dimension_by_number(&col) {
+                set.insert(format!("{:?}", c.get_style()));
+            }
+        }
+    }
+    for ((sheet, row), rs) in case.row_model() {
+        let (first, own) = plan(case, rs.style, rs.prior, phase);
+        if first.is_some() || own {
+            if let Some(r) = book.get_sheet(&sheet).unwrap().get_row_dimension(&row) {
+                set.insert(format!("{:?}", r.get_style()));
+            }
+        }
+    }
+    for ((sheet, row, col), cs) in case.cell_model() {
+        let (first, own) = plan(case, Some(cs.style), cs.prior, phase);
+        if first.is_some() || own {
+            set.insert(format!("{:?}", book.get_sheet(&sheet).unwrap().get_style((col, row))));
+        }
+    }
+    set
 }
 
 // ---------------------------------------------------------------------------------------
@@ -304,6 +456,8 @@ fn value_class(attr: &str, v: &str) -> String {
         } else {
             kind.to_string()
         }
+    } else if attr == "fill.pattern" && v.starts_with("gradient") {
+        "gradient".to_string()
     } else if attr == "font.name" || attr == "numfmt.code" {
         text_kind(v).to_string()
     } else if attr == "font.size" {
@@ -321,6 +475,8 @@ fn judge_style(what: &str, target: &str, i: usize, exp: &[StyleProj], got: &Styl
     if e == got {
         return None;
     }
+    // `api:` keys: the getters disagree with the call sequence already before saving
+    let back = if gen.starts_with("api:") { "shows (before saving)" } else { "came back with" };
     let d = e.diff(got);
     let (attr, ev, gv) = &d[0];
     let comp = component_of(attr);
@@ -330,12 +486,13 @@ fn judge_style(what: &str, target: &str, i: usize, exp: &[StyleProj], got: &Styl
         return Some(Verdict::fail(
             format!("{}{}/case-changed", gen, attr),
             format!(
-                "{} {} style #{}: {} given as {:?}, reloaded as {:?} (letter case only){}",
+                "{} {} style #{}: {} given as {:?}, {} {:?} (letter case only){}",
                 what,
                 target,
                 i,
                 attr,
                 ev,
+                back,
                 gv,
                 match sibling {
                     Some((j, _)) => format!("; it is now indistinguishable from style #{}, which was given {:?}", j, gv),
@@ -348,14 +505,14 @@ fn judge_style(what: &str, target: &str, i: usize, exp: &[StyleProj], got: &Styl
     if *got == dflt {
         return Some(Verdict::fail(
             format!("{}{}/style-lost", gen, what),
-            format!("{} {} was given style #{} ({:?}) and came back with the default formatting", what, target, i, e.diff(got)),
+            format!("{} {} was given style #{} ({:?}) and {} the default formatting", what, target, i, e.diff(got), back),
         ));
     }
     let gcomp = got.component(comp);
     if gcomp == dflt.component(comp) && d.iter().filter(|x| component_of(x.0) == comp).count() > 1 {
         return Some(Verdict::fail(
             format!("{}{}/reset-to-default", gen, comp),
-            format!("{} {} style #{}: the whole {} came back as the workbook default; expected {:?} (all differences: {:?})", what, target, i, comp, e.component(comp), d),
+            format!("{} {} style #{}: the whole {} {} the workbook default; expected {:?} (all differences: {:?})", what, target, i, comp, back, e.component(comp), d),
         ));
     }
     // (ii) did it come back with the component of another style of this workbook?
@@ -365,10 +522,11 @@ fn judge_style(what: &str, target: &str, i: usize, exp: &[StyleProj], got: &Styl
             return Some(Verdict::fail(
                 format!("{}{}/merged", gen, apart.join("+")),
                 format!(
-                    "{} {} was given style #{} but came back with the {} of style #{}: they differ in {:?}; expected {:?}, reloaded {:?}",
+                    "{} {} was given style #{} but {} the {} of style #{}: they differ in {:?}; expected {:?}, got {:?}",
                     what,
                     target,
                     i,
+                    back,
                     comp,
                     j,
                     e.diff(o),
@@ -380,8 +538,17 @@ fn judge_style(what: &str, target: &str, i: usize, exp: &[StyleProj], got: &Styl
     }
     Some(Verdict::fail(
         format!("{}{}/{}->{}", gen, attr, value_class(attr, ev), value_class(attr, gv)),
-        format!("{} {} style #{}: {} expected {:?}, reloaded {:?} (all differences: {:?})", what, target, i, attr, ev, gv, d),
+        format!("{} {} style #{}: {} expected {:?}, {} {:?} (all differences: {:?})", what, target, i, attr, ev, back, gv, d),
     ))
+}
+
+fn hist_label(h: &Hist) -> &'static str {
+    match h {
+        Hist::Plain => "plain",
+        Hist::InPlace => "in-place",
+        Hist::Over { conv: 0, .. } => "over-prior",
+        Hist::Over { .. } => "over-prior+convenience",
+    }
 }
 
 fn default_width() -> f64 {
@@ -394,10 +561,16 @@ fn compare(case: &Case, exp: &[StyleProj], book: &Spreadsheet, gen: &str, upto: 
         return Some(Verdict::fail(format!("{}sheets/count", gen), format!("{} sheets reloaded, {} saved", book.get_sheet_count(), case.nsheets())));
     }
     let dflt = default_proj();
-    for ((sheet, row, col), (i, _)) in case.cell_model() {
-        if case.phase(Some(i)) > upto {
-            continue;
-        }
+    for ((sheet, row, col), cs) in case.cell_model() {
+        // a target whose own style comes in a later phase shows its prior style until then
+        let i = if case.phase(Some(cs.style)) > upto {
+            match cs.prior {
+                Some(j) => j,
+                None => continue,
+            }
+        } else {
+            cs.style
+        };
         let ws = book.get_sheet(&sheet).unwrap();
         let got = effective(ws.get_style((col, row)));
         let at = format!("sheet {} {}{}", sheet, crate::props::c17::ref_col_name(col), row);
@@ -406,12 +579,18 @@ fn compare(case: &Case, exp: &[StyleProj], book: &Spreadsheet, gen: &str, upto: 
         }
     }
     for ((sheet, row), rs) in case.row_model() {
-        if case.phase(rs.style) > upto {
-            continue;
-        }
         let ws = book.get_sheet(&sheet).unwrap();
         let at = format!("sheet {} row {}", sheet, row);
         let r = ws.get_row_dimension(&row);
+        if case.phase(rs.style) > upto {
+            if let Some(j) = rs.prior {
+                let st = r.map_or(dflt.clone(), |r| effective(r.get_style()));
+                if let Some(v) = judge_style("row", &at, j, exp, &st, gen) {
+                    return Some(v);
+                }
+            }
+            continue;
+        }
         let (h, hid, st) = match r {
             Some(r) => (*r.get_height(), *r.get_hidden(), effective(r.get_style())),
             None => (0.0, false, dflt.clone()),
@@ -438,12 +617,18 @@ fn compare(case: &Case, exp: &[StyleProj], book: &Spreadsheet, gen: &str, upto: 
         }
     }
     for ((sheet, col), cs) in case.col_model() {
-        if case.phase(cs.style) > upto {
-            continue;
-        }
         let ws = book.get_sheet(&sheet).unwrap();
         let at = format!("sheet {} column {}", sheet, crate::props::c17::ref_col_name(col));
         let c = ws.get_column_dimension_by_number(&col);
+        if case.phase(cs.style) > upto {
+            if let Some(j) = cs.prior {
+                let st = c.map_or(dflt.clone(), |c| effective(c.get_style()));
+                if let Some(v) = judge_style("col", &at, j, exp, &st, gen) {
+                    return Some(v);
+                }
+            }
+            continue;
+        }
         let (w, hid, bf, st) = match c {
             Some(c) => (*c.get_width(), *c.get_hidden(), *c.get_best_fit(), effective(c.get_style())),
             None => (default_width(), false, false, dflt.clone()),
@@ -625,6 +810,21 @@ fn check(case: &Case, obs: &mut Obs) -> Verdict {
             obs.class("fill:fg-only+bg-only-same-colour");
         }
     }
+    for h in ["in-place", "over-prior", "over-prior+convenience"] {
+        if (0..n).any(|i| hist_label(case.hist(i)) == h) {
+            obs.class(format!("hist:{}", h));
+        }
+    }
+    {
+        let cells = case.cell_model();
+        let restyled = cells.values().filter(|c| c.prior.is_some()).map(|c| c.how).chain(rm.values().filter(|r| r.prior.is_some()).map(|r| r.how)).chain(cm.values().filter(|c| c.prior.is_some()).map(|c| c.how)).collect::<Vec<_>>();
+        if restyled.iter().any(|h| *h == 0) {
+            obs.class("restyle:set_style-twice");
+        }
+        if restyled.iter().any(|h| *h == 1) {
+            obs.class(if case.two_phase { "restyle:in-place-after-reload" } else { "restyle:in-place" });
+        }
+    }
     if cm.keys().any(|k| k.1 == 16384) {
         obs.class("col:XFD");
     }
@@ -643,23 +843,30 @@ fn check(case: &Case, obs: &mut Obs) -> Verdict {
 
     // spec -> Style through the public API; the hand-written expectation must agree with
     // what the getters say BEFORE saving, otherwise the case says nothing about save/reload
-    let styles: Vec<Style> = match guard(|| case.styles.iter().map(apply).collect::<Vec<_>>()) {
+    //
+    // A style "was given" the formatting its call sequence denotes (the last write of every
+    // attribute wins; only call paths for which the API promises that are generated, see
+    // gen::style "setter histories").  If the getters already disagree before saving, the
+    // formatting was lost by a setter, not by save/reload; that is reported too, under its
+    // own `api:` keys (on the unmodified tree this never happens: verified over all seeds).
+    let styles: Vec<Style> = match guard(|| case.styles.iter().enumerate().map(|(i, s)| build_style(s, case.hist(i))).collect::<Vec<_>>()) {
         Ok(s) => s,
-        Err(p) => return Verdict::Discard(format!("apply panicked: {}", p.short())),
+        Err(p) => return Verdict::fail(format!("api:build-style/panic:{}", p.site()), p.short()),
     };
     for (i, st) in styles.iter().enumerate() {
         let pre = effective(st);
-        if pre != exp[i] {
-            return Verdict::Discard(format!("pre-save model mismatch for style #{}: {:?}", i, exp[i].diff(&pre)));
+        if let Some(v) = judge_style("style", &format!("(before saving, built as {})", hist_label(case.hist(i))), i, &exp, &pre, "api:") {
+            return v;
         }
     }
     let mut book = new_book(case);
     if let Err(p) = guard(|| build(&mut book, case, &styles, 1)) {
         return Verdict::fail(format!("build/panic:{}", p.site()), p.short());
     }
-    if let Some(Verdict::Fail { key, detail }) = compare(case, &exp, &book, "", 1) {
-        return Verdict::Discard(format!("pre-save workbook does not show the spec: {} {}", key, detail));
+    if let Some(v) = compare(case, &exp, &book, "api:", 1) {
+        return v;
     }
+    let values1 = target_style_values(&book, case, 1);
 
     let bytes1 = lib!("save", save(&book, case.light));
     let mut book2 = lib!("reload", load(&bytes1));
@@ -672,10 +879,11 @@ fn check(case: &Case, obs: &mut Obs) -> Verdict {
         if let Err(p) = guard(|| build(&mut book2, case, &styles, 2)) {
             return Verdict::fail(format!("phase2:build/panic:{}", p.site()), p.short());
         }
-        if let Some(Verdict::Fail { key, detail }) = compare(case, &exp, &book2, "", 2) {
-            return Verdict::Discard(format!("pre-save workbook (phase 2) does not show the spec: {} {}", key, detail));
+        if let Some(v) = compare(case, &exp, &book2, "api:phase2:", 2) {
+            return v;
         }
     }
+    let values2 = if case.two_phase { target_style_values(&book2, case, 2) } else { Default::default() };
     let bytes2 = lib!("resave", save(&book2, case.light));
     let book3 = lib!("reload2", load(&bytes2));
     if let Some(v) = compare(case, &exp, &book3, gen2, 2) {
@@ -706,23 +914,13 @@ fn check(case: &Case, obs: &mut Obs) -> Verdict {
             return Verdict::fail(format!("tables/{}-grows:gen2->gen3", t), format!("{}: {} -> {} -> {} entries over three saves", t, a, b, c));
         }
     }
-    // Distinct styles are counted the way the library can possibly tell them apart: as `Style`
-    // values (PartialEq), separately per phase: a style added to a RELOADED workbook is a
-    // different value from its materialised twin that came from the file (font None vs
-    // Some(default font) ...), so it legitimately gets an xf of its own; the statement only
-    // forbids growth by saving.
-    // (`Style` has no Hash; its derived Debug text is equal exactly when the values are equal,
-    // there are no NaNs here)
-    let mut distinct = 0u32;
-    for phase in [1u8, 2] {
-        let mut seen: std::collections::HashSet<String> = std::collections::HashSet::new();
-        for (i, s) in styles.iter().enumerate() {
-            if case.phase(Some(i)) == phase {
-                seen.insert(format!("{:?}", s));
-            }
-        }
-        distinct += seen.len() as u32;
-    }
+    // Distinct styles are counted the way the library can possibly tell them apart: as the
+    // `Style` VALUES that sit on the targets (a style edited in place on top of something else
+    // may differ from its twin in attributes outside the projection), separately per phase: a
+    // style given to a RELOADED workbook is a different value from its materialised twin that
+    // came from the file (font None vs Some(default font) ...), so it legitimately gets an xf
+    // of its own; the statement only forbids growth by saving.
+    let distinct = (values1.len() + values2.len()) as u32;
     // every style is applied in exactly one phase, so the bound is checked on the first
     // generation that holds all of them
     let xfs = count_of(if case.two_phase { &t2 } else { &t1 }, "cellXfs");
@@ -778,16 +976,18 @@ fn strategy(t: Tier) -> BoxedStrategy<Case> {
         1 => style_set(2, 3, 8, false),
         1 => style_set(fams, muts, max_styles, true),
     ];
-    let cell = (any::<u8>(), col_pos(), row_pos(), any::<u16>(), any::<bool>()).prop_map(|(sheet, col, row, style, value)| CellT { sheet, col, row, style, value });
+    let restyle = || (prop::option::weighted(0.35, any::<u16>()), 0u8..2);
+    let cell = (any::<u8>(), col_pos(), row_pos(), any::<u16>(), any::<bool>(), restyle())
+        .prop_map(|(sheet, col, row, style, value, (prior, how))| CellT { sheet, col, row, style, value, prior, how });
     // combo 0/1: zero height together with hidden / explicitly not hidden
-    let row = (any::<u8>(), row_pos(), prop::option::weighted(0.8, any::<u16>()), prop::option::weighted(0.6, f64_from(&HEIGHTS)), opt_b(), 0u8..12)
-        .prop_map(|(sheet, row, style, height, hidden, combo)| {
+    let row = (any::<u8>(), row_pos(), prop::option::weighted(0.8, any::<u16>()), prop::option::weighted(0.6, f64_from(&HEIGHTS)), opt_b(), 0u8..12, restyle())
+        .prop_map(|(sheet, row, style, height, hidden, combo, (prior, how))| {
             let (height, hidden) = match combo {
                 0 => (Some(Num(0.0)), Some(true)),
                 1 => (Some(Num(0.0)), Some(false)),
                 _ => (height, hidden),
             };
-            RowT { sheet, row, style, height, hidden }
+            RowT { sheet, row, style, height, hidden, prior, how }
         });
     let col = (
         any::<u8>(),
@@ -799,9 +999,9 @@ fn strategy(t: Tier) -> BoxedStrategy<Case> {
         opt_b(),
         prop_oneof![2 => Just(0u8), 4 => 1u8..=4],
         any::<u16>(),
-        0u8..12,
+        (0u8..12, restyle()),
     )
-        .prop_map(|(sheet, col, run, style, width, hidden, best_fit, neighbour, neighbour_style, combo)| {
+        .prop_map(|(sheet, col, run, style, width, hidden, best_fit, neighbour, neighbour_style, (combo, (prior, how)))| {
             // combo 0/1: zero width together with hidden / explicitly not hidden
             let (width, hidden) = match combo {
                 0 => (Some(Num(0.0)), Some(true)),
@@ -818,6 +1018,8 @@ fn strategy(t: Tier) -> BoxedStrategy<Case> {
                 best_fit,
                 neighbour,
                 neighbour_style,
+                prior,
+                how,
             }
         });
     (
@@ -828,8 +1030,13 @@ fn strategy(t: Tier) -> BoxedStrategy<Case> {
         prop::collection::vec(col, 0..=targets),
         any::<bool>(),
         prop::bool::weighted(0.3),
+        // one raw value per style decides how its Style value is reached (gen::style::hist_for)
+        prop::collection::vec(any::<u16>(), max_styles),
     )
-        .prop_map(|(styles, sheets, cells, rows, cols, light, two_phase)| Case { styles, sheets, cells, rows, cols, light, two_phase })
+        .prop_map(|(styles, sheets, cells, rows, cols, light, two_phase, raws)| {
+            let hists = (0..styles.len()).map(|i| hist_for(&styles, i, raws[i])).collect();
+            Case { styles, sheets, cells, rows, cols, light, two_phase, hists }
+        })
         .boxed()
 }
 
@@ -839,6 +1046,7 @@ pub fn small_case(t: Tier) -> BoxedStrategy<Case> {
     strategy(t)
         .prop_map(|mut c| {
             c.styles.truncate(12);
+            c.hists.truncate(12);
             c.cells.truncate(10);
             c.rows.truncate(8);
             c.cols.truncate(8);
@@ -849,7 +1057,7 @@ pub fn small_case(t: Tier) -> BoxedStrategy<Case> {
 }
 
 pub fn build_all(case: &Case) -> Spreadsheet {
-    let styles: Vec<Style> = case.styles.iter().map(apply).collect();
+    let styles: Vec<Style> = case.styles.iter().enumerate().map(|(i, s)| build_style(s, case.hist(i))).collect();
     let mut book = new_book(case);
     build(&mut book, case, &styles, 1);
     book
@@ -918,10 +1126,11 @@ fn big_case(b: &BigCase) -> Case {
         styles,
         sheets: 1,
         cells: Vec::new(),
-        rows: vec![RowT { sheet: 0, row: 1048576, style: Some(u16::MAX), height: Some(Num(0.0)), hidden: Some(true) }],
-        cols: vec![ColT { sheet: 0, col: 16380, run: 5, style: Some(0), width: Some(Num(0.0)), hidden: Some(true), best_fit: None, neighbour: 0, neighbour_style: 0 }],
+        rows: vec![RowT { sheet: 0, row: 1048576, style: Some(u16::MAX), height: Some(Num(0.0)), hidden: Some(true), prior: None, how: 0 }],
+        cols: vec![ColT { sheet: 0, col: 16380, run: 5, style: Some(0), width: Some(Num(0.0)), hidden: Some(true), best_fit: None, neighbour: 0, neighbour_style: 0, prior: None, how: 0 }],
         light: b.light,
         two_phase: b.two_phase,
+        hists: Vec::new(),
     }
 }
 
